@@ -312,6 +312,59 @@ func runC05(rc *RunCtx) {
 		}
 		return out
 	}
+	// unseal of the sealable namespace; faulty: the first attempt meets a storage
+	// read error on one of the namespace's stored leases (restoring them is part
+	// of the unseal), the operator then unseals again. false: a violation was raised.
+	nsUnseal := func(faulty bool) bool {
+		nsLeaseKeys := 0
+		nsLeasePrefix := ""
+		for _, k := range disk.RawKeys("namespaces/") {
+			if i := strings.Index(k, "/sys/expire/id/"); i > 0 {
+				nsLeaseKeys++
+				nsLeasePrefix = k[:i+len("/sys/expire/id/")]
+			}
+		}
+		if nsLeaseKeys > 0 && faulty {
+			vault.VerifPurgeCache(h.Core)
+			disk.FailPrefix, disk.FailOps = nsLeasePrefix, "get tx-get"
+			nth := 1 + tp.Pick(nsLeaseKeys)
+			disk.FailNth = nth
+			hits := disk.FailHits
+			r, err := h.Do("nsunseal", Req{Op: logical.UpdateOperation, Path: "sys/namespaces/n1/unseal", Token: h.Root, Data: map[string]any{"key": nsKey}})
+			s.Advance(2 * time.Second)
+			disk.FailNth = 0
+			if disk.FailHits > hits {
+				s.Faults["err-na"]++
+				note("namespace n1 unseal with a read fault on stored lease read #%d of %d -> %v %v", nth, nsLeaseKeys, err, r)
+				if err == nil && (r == nil || !r.IsError()) {
+					s.Probe("namespace_unseal_succeeded_despite_restore_fault")
+				} else {
+					s.Probe("namespace_unseal_failed_on_restore_fault")
+				}
+			}
+		}
+		if r, err := h.Do("nsunseal", Req{Op: logical.UpdateOperation, Path: "sys/namespaces/n1/unseal", Token: h.Root, Data: map[string]any{"key": nsKey}}); err == nil && (r == nil || !r.IsError()) {
+			nsSealed = false
+			note("namespace n1 unsealed")
+			// leases that expired while the namespace was sealed are revoked now
+			for _, l := range leases {
+				if l.ns != "" && !l.dead && time.Now().After(l.expire.Add(time.Minute)) {
+					l.dead = true
+				}
+			}
+			if !checkTracking("after-namespace-unseal") {
+				return false
+			}
+		}
+		return true
+	}
+	nsSeal := func() {
+		if r, err := h.Do("nsseal", Req{Op: logical.UpdateOperation, Path: "sys/namespaces/n1/seal", Token: h.Root}); err == nil && (r == nil || !r.IsError()) {
+			nsSealed = true
+			note("namespace n1 sealed")
+			s.Faults["namespace-seal"]++
+		}
+	}
 	for i := 0; i < nOps && s.Viol == nil; i++ {
 		s.Steps++
 		switch tp.Pick(11) {
@@ -666,25 +719,9 @@ func runC05(rc *RunCtx) {
 		case 10:
 			if nsMode == "sealable" && tp.Pick(2) == 0 { // seal / unseal the namespace: its leases are unloaded / restored
 				if !nsSealed {
-					if r, err := h.Do("nsseal", Req{Op: logical.UpdateOperation, Path: "sys/namespaces/n1/seal", Token: h.Root}); err == nil && (r == nil || !r.IsError()) {
-						nsSealed = true
-						note("namespace n1 sealed")
-						s.Faults["namespace-seal"]++
-					}
-				} else {
-					if r, err := h.Do("nsunseal", Req{Op: logical.UpdateOperation, Path: "sys/namespaces/n1/unseal", Token: h.Root, Data: map[string]any{"key": nsKey}}); err == nil && (r == nil || !r.IsError()) {
-						nsSealed = false
-						note("namespace n1 unsealed")
-						// leases that expired while the namespace was sealed are revoked now
-						for _, l := range leases {
-							if l.ns != "" && !l.dead && time.Now().After(l.expire.Add(time.Minute)) {
-								l.dead = true
-							}
-						}
-						if !checkTracking("after-namespace-unseal") {
-							return
-						}
-					}
+					nsSeal()
+				} else if !nsUnseal(tp.Pick(2) == 0) {
+					return
 				}
 				continue
 			}
@@ -717,6 +754,16 @@ func runC05(rc *RunCtx) {
 	}
 	if s.Viol != nil {
 		return
+	}
+	// a sealable namespace ends half of the histories with a seal and an unseal
+	// whose first attempt fails on a stored lease
+	if nsMode == "sealable" && tp.Pick(2) == 0 {
+		if !nsSealed {
+			nsSeal()
+		}
+		if nsSealed && !nsUnseal(true) {
+			return
+		}
 	}
 	if !checkTracking("end") {
 		return
